@@ -4,10 +4,16 @@ import json, os, subprocess, sys
 ENV = dict(os.environ, GOFLAGS="-mod=mod", GOPROXY="off", GOSUMDB="off", GOTOOLCHAIN="local")
 base = json.load(open("/root/.vp/BASELINE.json"))["stable_pass"]
 pk = {}
+subs = {}
 for t in base:
     imp, name = t.split("::")
-    if "/" in name: continue
-    pk.setdefault(imp.replace("github.com/zilliztech/milvus-cdc/", ""), set()).add(name)
+    d = imp.replace("github.com/zilliztech/milvus-cdc/", "")
+    if "/" in name:
+        par, sub = name.split("/", 1)
+        if imp + "::" + par not in base:  # parent not stable as a whole: run the subtest alone
+            subs.setdefault(d, set()).add("^%s$/^%s$" % (par, sub.split("/")[0]))
+        continue
+    pk.setdefault(d, set()).add(name)
 want = sys.argv[1:]
 bad = 0
 for d in sorted(pk):
@@ -17,4 +23,8 @@ for d in sorted(pk):
     p = subprocess.run(cmd, shell=True, cwd="/repo/" + mod, env=ENV, capture_output=True, text=True)
     print(d, len(pk[d]), "tests", "ok" if p.returncode == 0 else "FAIL\n" + (p.stdout + p.stderr)[-1500:])
     bad += p.returncode != 0
+    for sp in sorted(subs.get(d, [])):
+        p = subprocess.run("timeout 600 go test -vet=off -count=1 -run '%s' %s" % (sp, rel), shell=True, cwd="/repo/" + mod, env=ENV, capture_output=True, text=True)
+        print(d, sp, "ok" if p.returncode == 0 else "FAIL\n" + (p.stdout + p.stderr)[-1500:])
+        bad += p.returncode != 0
 sys.exit(1 if bad else 0)
